@@ -3,7 +3,7 @@ import ast
 
 from .. import sym, refcmp
 from ..match import SELF, params, is_call
-from ..source import AnalysisError, dotted
+from ..source import AnalysisError, dotted, src as src_
 from ..sym import show
 from .c19 import do_load_keys
 
@@ -295,3 +295,26 @@ def run(chk, repo, tier):
                                            ast.Continue)), LIB, lp,
            key='includes-complete', what='the include loop has no early '
                                          'exit')
+    from . import c12 as _c12
+    _c12.yaml_machinery(chk, repo, 'R13.8')
+    # ---- R13.9 the library container ---------------------------------------------
+    from .. import reviewed
+    from ..effects import FuncEffects
+    for q in ('GroupLibrary.__init__', 'GroupLibrary.__getitem__',
+              'GroupLibrary.__contains__', 'GroupLibrary.__iter__',
+              'GroupLibrary.__len__', 'GroupLibrary.Load',
+              'GroupLibrary._Load', 'GroupLibrary._do_load'):
+        reviewed.check(chk, 'R13.9', repo, LIB, q,
+                       '%s is unchanged in normal form from its reviewed '
+                       'reference (a library owns a fresh dict of its '
+                       'contents)' % q)
+    li = repo.func(LIB, 'GroupLibrary.__init__')
+    aliases = [src_(n) for n in ast.walk(li) if isinstance(n, ast.Assign)
+               and isinstance(n.value, ast.Name)
+               and n.value.id == 'contents'
+               and any(isinstance(t, ast.Attribute) for t in n.targets)]
+    chk.ob('R13.9', not aliases, LIB, li, key='contents-copied',
+           what='GroupLibrary.__init__ builds its own dict from the contents '
+                'it is given (the default {} is shared by every call)',
+           found='; '.join(aliases))
+
